@@ -1,0 +1,13 @@
+//go:build verif
+
+package ledger
+
+// Contracts for /verif (contract-based deductive verification). Comment-only.
+
+// C40: block-level KES check: true only when the certificate's start period is not in the future
+// and the signature verifies at evolution (slot / slotsPerKesPeriod) - kesPeriod over the given body bytes.
+//@ func VerifyKesComponents(bodyCbor, signature, hotVkey, kesPeriod, slot, slotsPerKesPeriod) (ok, err)
+//@   props C40
+//@   ensures zero: slotsPerKesPeriod == 0 ==> err != nil && !ok
+//@   ensures sig: ok ==> err == nil && slotsPerKesPeriod != 0 && kesPeriod <= slot / slotsPerKesPeriod &&
+//@       kes.VerifySignedKES(hotVkey, slot / slotsPerKesPeriod - kesPeriod, bodyCbor, signature)
